@@ -39,7 +39,12 @@ import random
 import re
 from concurrent.futures import ThreadPoolExecutor
 
+import sys
+
 import vlib
+
+sys.path.insert(0, os.path.dirname(os.path.abspath(__file__)))
+import _c19v  # noqa: E402  (family "validate": full validation / full sync / ListMissingDestinationBlobs)
 
 LEVEL = "model_checking"
 os.environ.setdefault("JAVA_TOOL_OPTIONS", "-XX:TieredStopAtLevel=1 -XX:ParallelGCThreads=2")
@@ -381,6 +386,8 @@ def run(ctx, replay):
     quick = ctx.quick()
     if replay:
         rp = json.load(open(replay))
+        if rp.get("family") == _c19v.FAMILY:
+            return _c19v.replay(ctx, rp)
         scn = rp["scn"]
         # The interleaving of the copier (and of the index's own goroutines) with the uploads is not controlled, so the
         # lower-layer call a crash point denotes shifts by a few calls between runs: re-run the scenario several times,
@@ -399,6 +406,8 @@ def run(ctx, replay):
         ctx.cov["traces_validated_against_impl"] += n
         ctx.cov["evaluations"] += len(evs)
         return
+    vex = ThreadPoolExecutor(max_workers=1)
+    vfut = vex.submit(_c19v.run_leg, ctx, quick)      # family "validate", alongside everything below
     # ---- G: scenario families (TLC), generated first (short JVM runs)
     core = ctx.tlc_gen("SyncGen", "SyncGen.cfg", tag="SCN")
     cuts = ctx.tlc_gen("SyncGen", "SyncGen.cfg", tag="SCN", overrides={
@@ -410,9 +419,12 @@ def run(ctx, replay):
     burst = ctx.tlc_gen("SyncGen", "SyncGenBurst.cfg", tag="SCN", overrides=bov)
     bsweep = [] if quick else ctx.tlc_gen("SyncGen", "SyncGenBurst.cfg", tag="SCN", overrides={
         "BurstSizes": "{19, 20}", "CrashKinds": '{"sweep"}', "Pars": "{FALSE}", "BurstForms": '{"restart", "restart-stall", "split"}'})
+    # the source already holds the first / every blob of the history when the handler is attached (no hook ran for
+    # them, no row, not at the destination): uploading one of them is a receive like any other
+    pre = ctx.tlc_gen("SyncGen", "SyncGen.cfg", tag="SCN", overrides={"PreKinds": '{"first", "all"}'})
     rng = random.Random(ctx.seed)
     sample = rng.sample(big, 160 if quick else 1500)
-    fams = [("core", core, "both"), ("cuts", cuts, "mem"), ("sample", sample, "mem"),
+    fams = [("core", core, "both"), ("pre", pre, "both"), ("cuts", cuts, "mem"), ("sample", sample, "mem"),
             ("sample-ix", rng.sample(big, 50 if quick else 400), "index")]
     if not quick:
         wide = ctx.tlc_gen("SyncGen", "SyncGen.cfg", tag="SCN", overrides={
@@ -494,8 +506,10 @@ def run(ctx, replay):
     if some:
         mid = some[len(some) // 2]
         ctx.sample({"recorded_run": [{k: v for k, v in e.items() if k not in ("seq", "sg", "scn")} for e in mid[:40]]})
-    ctx.cov["traces_validated_against_impl"] = nseg
-    ctx.cov["evaluations"] = events
+    vseg, vlines = vfut.result()
+    vex.shutdown()
+    ctx.cov["traces_validated_against_impl"] = nseg + vseg
+    ctx.cov["evaluations"] = events + vlines
     ctx.cov["exhaustive"] = True
     ctx.count("T", runs=nseg, lines=events, rejected=nfail, wakeups=wakes)
     ctx.cov["rule"] = ("run = (configuration mem|index, upload history up to renaming incl. duplicates, cut into incarnations, outcome of the k-th "
@@ -530,5 +544,5 @@ def run(ctx, replay):
         "SyncPool.tla: the order in which a pass feeds its batch does not starve a blob for ever (strong fairness of feeding b; Go map "
         "iteration order), needed only when a batch exceeds the work channel",
         "a row written after its blob was already delivered (the copier may overtake queue.Set) stays until the next restart: Sync.tla "
-        "models this and the property does not forbid it; fullSyncOnStart / validateOnStart / hourlyCompare are not exercised",
+        "models this and the property does not forbid it; hourlyCompare is not exercised",
     ]
